@@ -76,6 +76,20 @@ func runC08(c *Case, out func(string)) {
 		runC09(c, out)
 		return
 	}
+	if hdrVal(c.Hdr, "level", "engine") == "crash" {
+		// crash recoveries: C02's runner (a child process dies at an armed site), decided by its
+		// oracle, which follows last_sequence over the recovery, the writes after it and a clean
+		// restart; the observations are notes (the model runner sees no operation)
+		runC02(c, func(s string) {
+			switch strings.SplitN(s, " ", 2)[0] {
+			case "ORACLE", "META", "KF", "NOTE", "IMPL-ERROR", "IMPL-PANIC":
+				out(s)
+			default:
+				out("NOTE " + s)
+			}
+		})
+		return
+	}
 	runC01(c, out)
 }
 
@@ -692,6 +706,12 @@ func genC08(w *bufio.Writer, seed int64, n int, tier string) {
 		}
 		if ci%10 == 7 {
 			genC09Case(w, r, fmt.Sprintf("case c08-%d-%d level=wal", seed, ci))
+			continue
+		}
+		if ci%10 == 1 {
+			// crash recoveries (every third of them with a large entry whose fragments end at the
+			// end of the surviving file)
+			genC02One(w, r, fmt.Sprintf("c08-%d-%d", seed, ci), " level=crash", []int{0, 2, 1, 5}[(ci/10)%4])
 			continue
 		}
 		genProgram(w, r, fmt.Sprintf("c08-%d-%d", seed, ci), 5+r.Intn(50), 5)
